@@ -84,13 +84,28 @@ fn expressions(tier: Tier, seed: u64) -> (Vec<(String, &'static str)>, Vec<serde
         }
     }
     fams.push(json!({"family": "negation nesting: [[X]], [[^X]], [^[X]], [^[^X]], [^[^[^X]]], ... and two-item variants with a doubly negated member", "expressions": e.len() - n0, "exhaustive": true}));
+    // depth 3: three levels of brackets / operators over a small item set
+    let n0 = e.len();
+    let small = ["a", "a-c", "\\d", "[:alpha:]", "\\PL"];
+    for x in small {
+        for y in small {
+            for z in small {
+                e.push((format!("[{x}[{y}[^{z}]]]"), "depth3"));
+                e.push((format!("[^{x}[^{y}[^{z}]]]"), "depth3"));
+                e.push((format!("[[{x}--{y}]~~{z}]"), "depth3"));
+                e.push((format!("[{x}&&[{y}--[^{z}]]]"), "depth3"));
+                e.push((format!("[^[{x}{y}]&&[^{z}]]"), "depth3"));
+            }
+        }
+    }
+    fams.push(json!({"family": "depth 3 over 5 items: [X[Y[^Z]]], [^X[^Y[^Z]]], [[X--Y]~~Z], [X&&[Y--[^Z]]], [^[XY]&&[^Z]]", "expressions": e.len() - n0, "exhaustive": true}));
     // literal escapes and ranges: every spelling of a literal is that one character; range bounds at
     // the edges of the scalar value space (0, the surrogate gap, the BMP/astral border, 10FFFF)
     let n0 = e.len();
     let esc = [
         "\\x2E", "\\u{2E}", "\\x{2e}", "\\U0000002E", "\\x41", "\\u{e9}", "\\n", "\\t", "\\-", "\\]", "\\\\", "\\^", "\\x00", "\\u{10FFFF}", "\\u{D7FF}", "\\u{E000}",
         "a-a", "\\u{0}-\\u{0}", "\\u{0}-\\u{10FFFF}", "\\u{0}-\\u{FFFF}", "\\u{D7FF}-\\u{E000}", "\\u{D000}-\\u{F000}", "\\u{E000}-\\u{FFFF}", "\\u{FFFF}-\\u{10000}", "\\u{1F600}-\\u{1F64F}",
-        "\\u{10FFFE}-\\u{10FFFF}", "\\u{10000}-\\u{10FFFF}", "!-/", "\\t-\\r", "\\u{7F}-\\u{A0}", "\\x2D-\\x2F", "+--",
+        "\\u{10FFFE}-\\u{10FFFF}", "\\u{10000}-\\u{10FFFF}", "!-/", "\\t-\\r", "\\u{7F}-\\u{A0}", "\\x2D-\\x2F", "+--", "\\x41-\\x5A", "\\x41-\\x5a", "\\u{41}-\\x{5A}", "\\x61-z", "0-\\x39",
     ];
     for x in esc {
         e.push((format!("[{x}]"), "escapes-ranges"));
